@@ -1,23 +1,21 @@
 #!/bin/sh
 # usage: selftest/confirm_seed.sh <id> <patch.diff> <demo.py>
-# Confirms a seeded change in a fresh scratch worktree (tests pass with it; demo fails with it and passes without),
-# then applies it to /repo, runs every registered quick check, and undoes it straight afterwards.
+# Confirms a seeded change in a fresh scratch worktree of /repo (demo passes on the original; patch applies; baseline suite passes
+# with the change; demo fails with the change), runs every registered quick check against that worktree (--repo), and removes it.
+# (/repo itself is never modified, so background runs that read /repo are not disturbed.)
 id=$1; patch=$2; demo=$3
 wt=$(mktemp -d /tmp/seedwt_XXXX); rmdir $wt
 git -C /repo worktree add -q $wt HEAD || exit 2
-sed -e "s|/tmp/wt_[a-z0-9]*|$wt|g" $demo > $wt/demo.py
+sed -e "s|/tmp/wt2\?_[a-z0-9]*|$wt|g" $demo > $wt/demo.py
 cd $wt
 echo "== demo on original"; PYTHONPATH=$wt /venv/bin/python demo.py > /tmp/seed_$id.orig.out 2>&1; echo "exit=$?"; tail -2 /tmp/seed_$id.orig.out
 git apply $patch || { echo "PATCH DOES NOT APPLY"; git -C /repo worktree remove --force $wt; exit 2; }
 echo "== test suite with the change"; PYTHONPATH=$wt /venv/bin/python -m pytest -q -p no:cacheprovider tests 2>&1 | tail -1
 echo "== demo with the change"; PYTHONPATH=$wt /venv/bin/python demo.py > /tmp/seed_$id.chg.out 2>&1; echo "exit=$?"; tail -3 /tmp/seed_$id.chg.out
 cd /verif
-git -C /repo worktree remove --force $wt
-echo "== checks with the change applied to /repo"
-git -C /repo apply $patch || exit 2
-for p in C01 C02 C04 C05 C06 C08 C09 C10 C11 C12 C13 C14 C15 C16 C17 C18; do
-  out=$(VERIF_NO_EVIDENCE=1 VERIF_OUT=/tmp/seed_out ./check $p 2>&1); rc=$?
+echo "== checks against the changed tree"
+for p in C01 C02 C03 C04 C05 C06 C07 C08 C09 C10 C11 C12 C13 C14 C15 C16 C17 C18; do
+  out=$(VERIF_NO_EVIDENCE=1 VERIF_OUT=/tmp/seed_out ./check $p --repo $wt 2>&1); rc=$?
   if [ $rc -ne 0 ]; then echo "$p rc=$rc"; echo "$out" | grep -E "key:|ANALYSIS-ERROR" | head -4; fi
 done
-git -C /repo checkout -- .
-git -C /repo status --short | head -3
+git -C /repo worktree remove --force $wt
